@@ -376,7 +376,12 @@ class Topology(ABC):
         :param name:
         :return:
         """
-        self.graph_model.remove_network_link(node_id=self._get_link_by_name(name=name).node_id)
+        link = self._get_link_by_name(name=name)
+        service_ports = [i for i in link.interface_list if i.type == InterfaceType.ServicePort]
+        self.graph_model.remove_network_link(node_id=link.node_id)
+        # a ServicePort exists only to peer over its link (connect_interface()/peer() create them together)
+        for sp in service_ports:
+            self.graph_model.remove_cp_and_links(node_id=sp.node_id)
 
     def add_network_service(self, *, name: str, node_id: str = None, nstype: ServiceType,
                             interfaces: List[Interface] = None, technology: str = None, **kwargs) -> NetworkService:
